@@ -140,6 +140,17 @@ def enum_units(tier, seed):
                     if ref == "lb_end" and ctx != "root":
                         continue
                     cases.append({"rom": "low", "files": {}, "ir": [{"k": "org", "a": 0x018000}] + wrap + sp("lb_end")})
+        # ... and the other way round: the label (or the `=` constant) comes first and a `:=` of the same name follows later in
+        # the same scope, e.g. in a block of constants at the end of the source
+        for first in ("label", "late"):
+            for v in (0x12, 0x1234, 0x123456):
+                d1 = [{"k": "label", "n": "kx_r"}] if first == "label" else [{"k": "const", "n": "kx_r", "e": L(0x4321 if v < 0x100 else 0x21), "eager": False}]
+                for where in ("before", "after"):
+                    use = [lda(["id", "kx_r"])] + sp("lb_mid")
+                    body = (use + d1 if where == "before" else d1 + use) + [{"k": "data", "d": "db", "es": [L(0xE1), L(0xE2)]}, {"k": "const", "n": "kx_r", "e": L(v), "eager": True},
+                                                                             {"k": "data", "d": "dl", "es": [["id", "kx_r"]]}]
+                    wrap = body if ctx == "root" else [{"k": "block", "b": body}] if ctx == "block" else [{"k": "scope", "n": "sc_r", "b": body}]
+                    cases.append({"rom": "low", "files": {}, "ir": [{"k": "org", "a": 0x018000}] + wrap + sp("lb_end")})
     # a qualified name that an outer named scope already exports when it is first evaluated (label pass) and that a nearer
     # scope of the same name (defined later, inside the enclosing block / scope / loop / macro) must win at emission
     def named(body):
